@@ -538,7 +538,7 @@ class Den:
         self.pert = pert  # None or a random.Random: relative 1e-13 perturbation of all terminal data
         self.dlevel = dlevel
         if _shared is None:
-            _shared = {"flags": set(), "maxabs": 0.0, "pertf": {}}
+            _shared = {"flags": set(), "maxabs": 0.0, "pertf": {}, "ctyped": False}
             if pert is not None:
                 self.x = tuple(v * (1 + MP.mpf(pert.uniform(-1, 1)) * MP.mpf(10) ** -13) for v in self.x)
         self.sh = _shared
@@ -573,6 +573,8 @@ class Den:
                 r.bits = None
             m = 0.0
             for v in r.arr.flat:
+                if not self.sh["ctyped"] and MP.im(v) != 0:
+                    self.sh["ctyped"] = True  # from here on the float side may be complex typed (signed zeros)
                 av = float(abs(v))
                 if av > m:
                     m = av
@@ -617,6 +619,8 @@ class Den:
         return LT(oarr(n.a, MP.mpf(0)), len(n.a), (), 1)
 
     def op_eps(self, n):
+        # PermutationSymbol.evaluate hands out UFL constants; math functions then take their complex code path
+        self.sh["ctyped"] = True
         k = n.a
         out = oarr((k,) * k, MP.mpf(0))
         for p in itertools.permutations(range(k)):
@@ -678,7 +682,7 @@ class Den:
         if MP.re(z) < 0 and abs(MP.im(z)) <= TIE * abs(z):
             # an exactly real negative argument has an unambiguous principal value unless the float side may
             # carry a negative zero imaginary part (complex data)
-            if self.cplx or MP.im(z) != 0 or self.dlevel:
+            if self.cplx or self.sh["ctyped"] or MP.im(z) != 0 or self.dlevel:
                 self.flag("branch-cut:" + what)
         if abs(z) < 1e-12:
             self.flag("branch-point:" + what)
